@@ -13,6 +13,10 @@ replay: the file is rendered from the line list computed in TLA+; for each
         style core.parse_doctestables(path, style, analysis='static') must
         yield exactly the predicted set of (callname, index), each once, and
         static_analysis.parse_static_calldefs exactly the inventory.
+trace : corpus conformance (specs/CollectTrace.tla): the repository's own
+        modules (thorough: also the 2 005 modules / 165 087 items of the
+        standard library) are abstracted into item lists; the visitor model
+        evaluated by TLC must equal what the real TopLevelVisitor collects.
 package: directory trees with and without __init__.py: see the ModPath part of
         this check (package_modpaths must list exactly the modules of the
         package tree).
@@ -24,7 +28,7 @@ import zlib
 
 from . import common, collectlib
 
-BOUNDS = {'quick': dict(n=3, limit=25000), 'thorough': dict(n=4, limit=250000)}
+BOUNDS = {'quick': dict(n=3, limit=15000), 'thorough': dict(n=4, limit=250000)}
 STYLES = ('freeform', 'google', 'auto')
 
 
@@ -86,8 +90,15 @@ def run(tier):
     collectlib.run_space(out, 'C07_Items<=%d' % b['n'], 'C07_Items', 'C07_ModDocs', b['n'], _one, sig, limit=b['limit'])
     for dev in ('CollectNestedClass', 'CollectMainGuard', 'CollectSetters', 'VisitFunctionBody', 'NoAsyncVisit'):
         collectlib.deviation_must_fail(out, 'C07_Items', 'C07_ModDocs', 2 if dev != 'CollectSetters' else 3, dev)
-    from . import c17
+    from . import c17, corpus_collect
     c17.package_phase(out, tier)
+    # code -> spec on real modules: the visitor model evaluated by TLC on the item lists of real files = the real collector
+    roots = [common.SRC, os.path.join(common.REPO, 'tests')]
+    if tier == 'thorough':
+        import sysconfig
+        roots.append(sysconfig.get_paths()['stdlib'])
+    for b in corpus_collect.collect_corpus_phase(out, roots):
+        out.violation({'kind': 'corpus_inventory'}, b)
     out.exhaustive = not out.extra.get('replay_sampled', False)
     out.assumptions = ['names are unique per item (redefinition of a name is not generated)',
                        'conditional / try / with blocks are transparent both at module level and in a class body']
